@@ -103,4 +103,88 @@ theorem render_identLike {e : Init} (hl : e.isLit = false) (h : identLike e.rend
       not_identLike_of_mem (c := '!') (by simp [Init.render]) (by decide)
     simp [this] at h
 
+/-! ### §3 the wildcard suffix -/
+
+theorem countSuffixRev_le (l : List TItem) : countSuffixRev l ≤ l.length := by
+  induction l with
+  | nil => simp [countSuffixRev]
+  | cons i r ih =>
+    simp only [countSuffixRev, List.length_cons]
+    split
+    · split <;> omega
+    · omega
+
+theorem countSuffixRev_wild (l : List TItem) : ∀ i ∈ l.take (countSuffixRev l), i.text = wildText := by
+  induction l with
+  | nil => simp [countSuffixRev]
+  | cons i r ih =>
+    simp only [countSuffixRev]
+    by_cases hw : (i.text == wildText) = true
+    · simp only [hw, if_true]
+      by_cases hc : i.hasComment = true
+      · simp only [hc, if_true]
+        intro j hj
+        simp at hj
+        subst hj
+        simpa using hw
+      · have hc' : i.hasComment = false := by simpa using hc
+        simp only [hc', Bool.false_eq_true, if_false]
+        intro j hj
+        have : (1 + countSuffixRev r) = countSuffixRev r + 1 := by omega
+        rw [this, List.take_succ_cons] at hj
+        simp only [List.mem_cons] at hj
+        rcases hj with hj | hj
+        · subst hj; simpa using hw
+        · exact ih j hj
+    · simp [hw]
+
+theorem count_le_length (items : List TItem) : countWildcardSuffixLen items ≤ items.length := by
+  have := countSuffixRev_le items.reverse
+  simpa [countWildcardSuffixLen] using this
+
+/-- the last `countWildcardSuffixLen items` elements are rendered `_` -/
+theorem suffix_is_wild (items : List TItem) :
+    (items.drop (items.length - countWildcardSuffixLen items)).map TItem.text =
+      List.replicate (countWildcardSuffixLen items) wildText := by
+  have hle := count_le_length items
+  have hw := countSuffixRev_wild items.reverse
+  unfold countWildcardSuffixLen at *
+  generalize hcdef : countSuffixRev items.reverse = c at *
+  have hrev : items.drop (items.length - c) = (items.reverse.take c).reverse := by
+    rw [List.take_reverse]; simp
+  rw [hrev]
+  apply List.ext_getElem
+  · simp [List.length_take]; omega
+  · intro n h1 h2
+    simp only [List.getElem_map, List.getElem_replicate]
+    apply hw
+    have : ((List.take c items.reverse).reverse)[n]'(by simpa using h1) ∈ (List.take c items.reverse).reverse :=
+      List.getElem_mem _
+    simpa using this
+
+theorem takeWhile_append_stop {p : Str → Bool} (a : List Str) (x : Str) (r : List Str)
+    (ha : ∀ y ∈ a, p y = true) (hx : p x = false) : (a ++ x :: r).takeWhile p = a := by
+  induction a with
+  | nil => simp [hx]
+  | cons y a ih =>
+    have hy := ha y (by simp)
+    simp only [List.cons_append, List.takeWhile, hy]
+    rw [ih (fun z hz => ha z (by simp [hz]))]
+
+theorem dropWhile_append_stop {p : Str → Bool} (a : List Str) (x : Str) (r : List Str)
+    (ha : ∀ y ∈ a, p y = true) (hx : p x = false) : (a ++ x :: r).dropWhile p = x :: r := by
+  induction a with
+  | nil => simp [hx]
+  | cons y a ih =>
+    have hy := ha y (by simp)
+    simp only [List.cons_append, List.dropWhile, hy]
+    exact ih (fun z hz => ha z (by simp [hz]))
+
+theorem filter_eq_nil_of_not_any {l : List Str} (h : l.any (· == restText) = false) :
+    l.filter (· == restText) = [] := by
+  rw [List.filter_eq_nil_iff]
+  intro a ha
+  rw [List.any_eq_false] at h
+  exact h a ha
+
 end RF.Lemmas.OptRewrites
